@@ -233,6 +233,9 @@ def configs(ctx):
                             if ctx.quick and s != 1.0 and mi % 3:
                                 continue
                             out.append(dict(problem=pname, span=list(span), dt0=dt0, method=m, dense=dense, dtype="float64", menu=menu, s=s, tol=1e-8, against=(len(out) % 3 == 1)))
+                            if s == 1.0 and mi % 4 == 0 and m in ("RK4Solver", "RK45CKSolver", "ImplicitMidpoint") and dense:
+                                # single precision: another dispatch of the nonlinear solver, coarser rounding of the times
+                                out.append(dict(problem=pname, span=list(span), dt0=dt0, method=m, dense=dense, dtype="float32", menu=menu, s=s, tol=1e-4))
     return out
 
 
